@@ -48,6 +48,9 @@ func c10Run(c *fw.Case, env *fw.Env) *fw.Obs {
 	if p.TagSrc != "" {
 		class += "/tag-from-" + p.TagSrc
 	}
+	if p.Shadow {
+		class += "/name-suffix-of-another-branch"
+	}
 	args := netArgs(w, &p)
 	out := runNetOp(w, &p, args)
 	o.Ev("oracle_evaluations", 1)
@@ -285,6 +288,9 @@ func init() {
 				l.Add("merge", netParams{Op: "merge", N: 8, BaseRows: 4, Branches: 1, Rel: "remote-behind", FF: ff}, int64(1001+i))
 				l.Add("merge", netParams{Op: "merge", N: 8, BaseRows: 4, Branches: 1, Rel: "remote-ahead", FF: ff}, int64(1011+i))
 			}
+			for i, rel := range []string{"remote-ahead", "diverged", "remote-behind", "diverged", "remote-ahead", "diverged"} {
+				l.Add("merge", netParams{Op: "merge", N: 8, BaseRows: 4, Branches: 1, Rel: rel, Shadow: true, FF: []string{"", "no-ff"}[i%2]}, int64(1071+i))
+			}
 			for i := 0; i < 6; i++ {
 				l.Add("fetch", netParams{Op: "fetch", N: 9, BaseRows: 4, Branches: 4, Tags: true, Force: "mixed"}, int64(1021+i))
 				l.Add("fetch", netParams{Op: "fetch", N: 9, BaseRows: 4, Branches: 4, Tags: true, All: true, Force: []string{"", "", "mixed"}[i%3]}, int64(1031+i))
@@ -322,6 +328,9 @@ func init() {
 							p.N = 6 + rng.Intn(6)
 						}
 					}
+				}
+				if (p.Op == "pull" || p.Op == "merge") && rng.Intn(3) == 0 {
+					p.Shadow = true
 				}
 				l.Add(p.Op, p, 0)
 			}
